@@ -51,15 +51,27 @@ Definition lint_max (usize_bits : Z) (t : prim) : Z :=
   | _ => vt_max t
   end.
 
-(* linter: Expression::SignedIntegerLiteral / BitIntegerLiteral arms *)
+(* linter: Expression::SignedIntegerLiteral / BitIntegerLiteral arms, and the Unary arm: a bit literal of a
+   signed type DIRECTLY under a negation may be as large as max + 1 (repair of D22: `-0x80` as i8 is -128) *)
 Fixpoint lint_on (usize_bits : Z) (l : lit) (t : prim) : bool :=
   match l with
   | LSigned v => if v <? 0 then v <? vt_min t else lint_max usize_bits t <? v
   | LBit v => lint_max usize_bits t <? v
-  | LNeg l' => lint_on usize_bits l' t
+  | LNeg l' =>
+      match l' with
+      | LBit v => if vt_is_signed t then lint_max usize_bits t + 1 <? v else lint_max usize_bits t <? v
+      | _ => lint_on usize_bits l' t
+      end
   end.
-(* the host target; also what the pinned commit did on every target *)
+(* the host target *)
 Definition lint (l : lit) (t : prim) : bool := lint_on 64 l t.
+(* the pinned commit: the Unary arm only recursed, and the range was the host's on every target *)
+Fixpoint lint_pinned (l : lit) (t : prim) : bool :=
+  match l with
+  | LSigned v => if v <? 0 then v <? vt_min t else vt_max t <? v
+  | LBit v => vt_max t <? v
+  | LNeg l' => lint_pinned l' t
+  end.
 
 (* generator: bit pattern of the constant, width w = vt_bits usize_bits t.
    LLVMConstInt(ty, bits64, sign_extend) = the 64-bit word sign- or zero-extended
